@@ -461,6 +461,10 @@ package raft
 //@   ensures [C02.truncate-only-at-conflict] result0 == success && forall(j, old(spos[ref(c.bufr)]) <= j && j < old(spos[ref(c.bufr)]) + old(req.numEntries) && sIdx(ref(c.bufr), j) > r.snaps.index && sIdx(ref(c.bufr), j) <= old(r.lastLogIndex) ==> sTerm(ref(c.bufr), j) == old(r.gterm[sIdx(ref(c.bufr), j)])) ==> r.lastLogIndex >= old(r.lastLogIndex) && forall(i, i <= old(r.lastLogIndex) ==> r.gterm[i] == old(r.gterm[i]))
 //@   ensures [C08.follower-adopt-revert] result0 == success ==> CfgInLog(r.storage)
 //@   ensures [C06.follower-flush-before-ack] result0 == success ==> r.flushed == r.lastLogIndex
+// the precondition `r.flushed == r.lastLogIndex` is an invariant between requests: whatever a request appended is
+// flushed on EVERY exit (also when the request fails half way), because a later request acknowledges it without
+// appending anything
+//@   ensures [C06+C10.flushed-at-every-exit] r.flushed == r.lastLogIndex
 //@   ensures [C02.follower-commit-rule] r.commitIndex > old(r.commitIndex) ==> r.commitIndex <= req.ldrCommitIndex && r.commitIndex <= r.lastLogIndex && (r.commitIndex > r.snaps.index ==> r.gterm[r.commitIndex] == req.term) && r.commitIndex <= r.flushed
 //@   loop 1 invariant RaftWF(r) && LogWF(r.storage) && r.resolver != nil && r.fsm != nil && r.commitIndex <= r.lastLogIndex
 //@   loop 1 invariant r.term == req.term && r.state == Follower && (r.leader == req.src || r.leader == 0) && r.term >= old(r.term)
